@@ -558,11 +558,46 @@ theorem subscribed_before_announced (parse : SFrame → Except String (HCfg × R
     (s' ++ later).drop st.subAt = registeredFrame st.cfg :: later := by
   unfold startHandler at h
   split at h
-  · injection h with h1 h2
-    injection h2 with h2
-    subst h1; subst h2
-    simp
+  · split at h
+    · injection h with _ h2; cases h2
+    · injection h with h1 h2
+      injection h2 with h2
+      subst h1; subst h2
+      simp
   · injection h with _ h2; cases h2
+
+/-- C16: a tail handler that starts has no registration traffic of its name between its own
+    `.register` and its subscription: whatever replaces or unregisters it comes live -/
+theorem started_tail_not_superseded (parse : SFrame → Except String (HCfg × Resume)) (name : String)
+    (stream : List SFrame) (r : SFrame) (s' : List SFrame) (st : Started)
+    (h : startHandler parse name stream r = (s', some st)) (ht : st.resume = .tail) :
+    ∀ f ∈ stream, f.ctx = st.cfg.ctx → st.cfg.id < f.id → isRegTraffic st.cfg f = false := by
+  unfold startHandler at h
+  split at h
+  · rename_i cfg resume _
+    split at h
+    · injection h with _ h2; cases h2
+    · rename_i hnone
+      injection h with _ h2
+      injection h2 with h2
+      subst h2
+      simp only at ht
+      subst ht
+      simp only [if_true] at hnone
+      intro f hf hc hi
+      unfold laterTraffic at hnone
+      have := List.find?_eq_none.mp hnone f hf
+      simp only [hc, hi, decide_true, Bool.true_and, Bool.not_eq_true] at this
+      exact this
+  · injection h with _ h2; cases h2
+
+/-- C16: a tail handler whose name was registered again or unregistered before it subscribed
+    never starts; its stop is announced once -/
+theorem superseded_never_starts (parse : SFrame → Except String (HCfg × Resume)) (name : String)
+    (stream : List SFrame) (r : SFrame) (cfg : HCfg) (f : SFrame)
+    (hp : parse r = .ok (cfg, .tail)) (hl : laterTraffic cfg stream = some f) :
+    startHandler parse name stream r = (stream ++ [unregistered cfg f none], none) := by
+  simp [startHandler, hp, hl]
 
 /-- C16: a rejected script is announced by exactly one `<name>.unregistered` naming the register
     frame, and no instance exists -/
